@@ -72,6 +72,16 @@ Theorem C02_error_codes :
   (forall e, fserr_code (FsProto PK_Settings e) = Some H3_SETTINGS_ERROR_rfc).
 Proof. exact fserr_code_table. Qed.
 
+(* both places that turn a frame-layer failure into a connection error - the request-stream handler and the control
+   stream's poll_control - pass protocol errors through that table and use the same code for a truncated frame;
+   FrameDecoder's only field is the `expected` memo and FrameStream's only state besides the stream is that decoder
+   and `remaining_data` (no counters or limits the model would not know of) *)
+Theorem C02_error_code_sites :
+  req_proto_via_table = true /\ ctl_proto_via_table = true /\
+  (forall e, fserr_code_ctl e = fserr_code e) /\
+  fd_decoder_field_count = 1 /\ fs_stream_field_count = 3.
+Proof. exact fserr_code_sites. Qed.
+
 Theorem C02_error_code_of_tail :
   forall e t, tail_of_fserr e = Some t ->
     (forall k fe, e = FsProto k fe -> map_ferr fe = Some e) -> fserr_code e = tail_code t.
@@ -133,6 +143,7 @@ Print Assumptions C02_refinement.
 Print Assumptions C02_refinement_from_state.
 Print Assumptions C02_chunking_independent.
 Print Assumptions C02_error_codes.
+Print Assumptions C02_error_code_sites.
 Print Assumptions C02_error_code_of_tail.
 Print Assumptions C02_no_panic.
 Print Assumptions C02_poll_next_contract.
